@@ -332,10 +332,13 @@ PROPERTY = Property(
           "diagonal modulus differing from 1 by >= 1e3; rotation clauses: degenerate pair (zero, tiny, a zero component, "
           "equal norms) or the |x1|<|x2| ordering branch; scalar clause: |q| outside (1e-3,1e3)."),
     clauses=[
-        Clause("ggivens", check_pair, strategy=pair_cases, budget={"quick": 1500, "thorough": 30000}),
-        Clause("GRSGivens", check_grs, strategy=grs_cases, budget={"quick": 800, "thorough": 10000}),
+        Clause("ggivens", check_pair, strategy=pair_cases, budget={"quick": 1500, "thorough": 30000},
+               fuzz={"runs": 6000, "procs": 3}),
+        Clause("GRSGivens", check_grs, strategy=grs_cases, budget={"quick": 800, "thorough": 10000},
+               fuzz={"runs": 4000, "procs": 2}),
         Clause("hess_qr", check_hess, strategy=hess_cases, budget={"quick": 500, "thorough": 8000}),
-        Clause("triangular", check_tri, strategy=tri_cases, budget={"quick": 500, "thorough": 8000}),
+        Clause("triangular", check_tri, strategy=tri_cases, budget={"quick": 500, "thorough": 8000},
+               fuzz={"runs": 3000, "procs": 3}),
         Clause("scalar_inverse", check_scalar, strategy=scalar_cases, budget={"quick": 600, "thorough": 8000}),
     ],
     assumptions=[
